@@ -488,6 +488,11 @@ func runHandoff(c driver.Case) driver.Result {
 	if cons > int64(k) {
 		return fail("harness-gate-broken", fmt.Sprintf("consumer took %d items with %d tokens", cons, k))
 	}
+	if op == "ToChannel" && ret-cons > int64(cp) {
+		// the reader is the channel's own receiver: with it stopped, every call that has returned left its
+		// value either with the reader or in the channel - nobody else holds one
+		return fail("producer-runs-ahead-of-consumer", fmt.Sprintf("with the reader stopped after %d receives, %d producer-side calls have returned: %d values sit in a channel of capacity %d", cons, ret, ret-cons, cp))
+	}
 	if ret-cons > int64(cp)+2 {
 		return fail("producer-runs-ahead-of-consumer", fmt.Sprintf("with the consumer stopped after %d items, %d producer-side calls have returned: lead %d > capacity %d + 2", cons, ret, ret-cons, cp))
 	}
